@@ -47,6 +47,13 @@ pub struct HugeCase {
     pub flavour: u8,
     pub mode0: u8,
     pub ops: Vec<HOp>,
+    /// C07 cases: a sub-directory FAR whose first block lies exactly 2^23 blocks (4 GiB) behind the root directory's,
+    /// with an empty file TWIN.DAT in the slot that an open file of the root directory (OTHER.DAT) occupies there
+    #[serde(default)]
+    pub far_twin: bool,
+    /// C05 cases: the file is deleted at the end; every cluster of its chain (up to 262144 links) must be free again
+    #[serde(default)]
+    pub delete_at_end: bool,
 }
 
 fn interesting_offset(r: &mut Rng, size: u64, cb: u64) -> u64 {
@@ -131,6 +138,8 @@ pub fn gen_case(seed: u64) -> HugeCase {
         flavour: r.below(3) as u8,
         mode0: r.below(3) as u8,
         ops,
+        far_twin: false,
+        delete_at_end: false,
     }
 }
 
@@ -154,6 +163,11 @@ pub fn build(c: &HugeCase) -> Built {
     v.fsinfo = FsInfoKind::Unknown;
     // root (1) + small file (1) + huge chain + gaps + spare
     v.clusters = (need + 2 + c.segs as u32 * 3 + c.spare_clusters).max(65525 + 16);
+    // the cluster whose first block lies 2^23 blocks behind the root directory's (cluster 2)
+    let far = 2 + (1u32 << 23) / c.spc as u32;
+    if c.far_twin {
+        v.clusters = (v.clusters + 1).max(far + 4);
+    }
     let total = v.lba + v.total_blocks() + 4;
     let mut img = Image::new(total, true);
     if c.lba > 0 {
@@ -200,6 +214,14 @@ pub fn build(c: &HugeCase) -> Built {
             chain.push(starts[s] + k);
         }
     }
+    if c.far_twin {
+        // keep the far cluster out of the chain
+        for x in chain.iter_mut() {
+            if *x >= far {
+                *x += 1;
+            }
+        }
+    }
     let n = g.clusters + 2;
     let mut fat = vec![0u32; n as usize];
     fat[0] = 0x0FFF_FFF8;
@@ -208,6 +230,9 @@ pub fn build(c: &HugeCase) -> Built {
     fat[3] = 0x0FFF_FFFF;
     for w in 0..chain.len() {
         fat[chain[w] as usize] = if w + 1 < chain.len() { chain[w + 1] } else { 0x0FFF_FFFF };
+    }
+    if c.far_twin {
+        fat[far as usize] = 0x0FFF_FFFF;
     }
     for copy in 0..g.num_fats {
         for s in 0..g.fat_size {
@@ -246,6 +271,36 @@ pub fn build(c: &HugeCase) -> Built {
     e2[28..32].copy_from_slice(&(SMALL_LEN as u32).to_le_bytes());
     rootb[32..64].copy_from_slice(&e2);
     let rb = g.cluster_block(2);
+    if c.far_twin {
+        let mut e3 = [0u8; 32];
+        e3[..11].copy_from_slice(b"FAR        ");
+        e3[11] = 0x10;
+        e3[20..22].copy_from_slice(&((far >> 16) as u16).to_le_bytes());
+        e3[26..28].copy_from_slice(&(far as u16).to_le_bytes());
+        rootb[64..96].copy_from_slice(&e3);
+        let mut e4 = [0u8; 32];
+        e4[..11].copy_from_slice(b"OTHER   DAT");
+        e4[11] = 0x20;
+        rootb[96..128].copy_from_slice(&e4);
+        let mut fb: Blk = [0u8; 512];
+        fb[..11].copy_from_slice(b".          ");
+        fb[11] = 0x10;
+        fb[20..22].copy_from_slice(&((far >> 16) as u16).to_le_bytes());
+        fb[26..28].copy_from_slice(&(far as u16).to_le_bytes());
+        fb[32..43].copy_from_slice(b"..         ");
+        fb[43] = 0x10;
+        fb[64] = 0xE5;
+        fb[65..75].copy_from_slice(b"ONE    DAT");
+        fb[75] = 0x20;
+        fb[96..107].copy_from_slice(b"TWIN    DAT");
+        fb[107] = 0x20;
+        let farb = g.cluster_block(far);
+        assert_eq!(farb, rb + (1 << 23));
+        img.set(farb, &fb);
+        for s in 1..g.spc {
+            img.set(farb + s, &[0u8; 512]);
+        }
+    }
     img.set(rb, &rootb);
     for s in 1..g.spc {
         img.set(rb + s, &[0u8; 512]);
@@ -319,7 +374,16 @@ fn mode_of(m: u8) -> Mode {
 }
 
 pub fn huge_case(prop: &'static str, seed: u64) -> CaseOutcome {
-    huge_eval(prop, &gen_case(seed))
+    let mut c = gen_case(seed);
+    if prop == "C07" {
+        c.far_twin = true;
+        c.ops.truncate(4);
+    }
+    if prop == "C05" {
+        c.delete_at_end = true;
+        c.ops.truncate(3);
+    }
+    huge_eval(prop, &c)
 }
 
 pub fn huge_replay(prop: &'static str, v: &serde_json::Value) -> Result<CaseOutcome, String> {
@@ -379,10 +443,12 @@ pub fn huge_eval(prop: &'static str, case: &HugeCase) -> CaseOutcome {
     let mut opi = 0usize;
     {
         let fs = make_fs((4, 4, 1), &disk, &clock, 1);
+        // the huge-file oracles are C01's whichever batch the case runs in; the far-twin clauses are C07's
+        let base_prop: &'static str = if prop == "C07" || prop == "C05" { "C01" } else { prop };
         let push = |oracle: &str, disc: &str, detail: String, opi: usize| {
             let mut viols = viols.borrow_mut();
             if viols.len() < 8 {
-                viols.push(Violation { prop, oracle: oracle.into(), disc: disc.into(), detail, op_idx: opi });
+                viols.push(Violation { prop: if oracle.starts_with("far-twin") { "C07" } else if oracle.starts_with("huge-delete") { "C05" } else { base_prop }, oracle: oracle.into(), disc: disc.into(), detail, op_idx: opi });
             }
         };
         macro_rules! guarded {
@@ -423,6 +489,51 @@ pub fn huge_eval(prop: &'static str, case: &HugeCase) -> CaseOutcome {
         };
         if mode != 0 {
             m.off = m.size;
+        }
+        // ---- two directory entries exactly 4 GiB apart: the file in one of them open, the other one's must still
+        // be a different file (C07: an *open* file can neither be opened again nor deleted - no other file)
+        let mut other_fh = None;
+        if case.far_twin {
+            probes.hit("two_directory_entries_4_gib_apart");
+            match guarded!("open_file", fs.open_file(root, &Name::Str("OTHER.DAT".into()), Mode::ReadOnly, 0)) {
+                Some(Ok(f)) => other_fh = Some(f),
+                Some(Err(e)) => push("far-twin-harness", "open-other", err_name(&e).to_string(), 0),
+                None => {}
+            }
+            match guarded!("open_dir", fs.open_dir(root, &Name::Str("FAR".into()), 0)) {
+                Some(Ok(fd)) => {
+                    match guarded!("find_directory_entry", fs.find(fd, &Name::Str("TWIN.DAT".into()), 0)) {
+                        Some(Ok(de)) => {
+                            if de.entry_block.0 != b.g.cluster_block(2) + (1 << 23) || de.entry_offset != 96 {
+                                push("far-twin-harness", "entry-place", format!("{:?} {}", de.entry_block, de.entry_offset), 0);
+                            }
+                        }
+                        Some(Err(e)) => push("far-twin", "lookup", err_name(&e).to_string(), 0),
+                        None => {}
+                    }
+                    match guarded!("open_file", fs.open_file(fd, &Name::Str("TWIN.DAT".into()), Mode::ReadOnly, 0)) {
+                        Some(Ok(tf)) => {
+                            let _ = fs.close_file(tf, 0);
+                        }
+                        Some(Err(e)) => push("far-twin", "open-refused", format!("a file that is not open cannot be opened ({}): its entry lies 4 GiB behind an open file's", err_name(&e)), 0),
+                        None => {}
+                    }
+                    if case.mode0 != 0 {
+                        match guarded!("delete_file_in_dir", fs.delete(fd, &Name::Str("TWIN.DAT".into()), 0)) {
+                            Some(Ok(())) => {
+                                if let Some(Ok(_)) = guarded!("find_directory_entry", fs.find(fd, &Name::Str("TWIN.DAT".into()), 0)) {
+                                    push("far-twin", "delete-no-effect", "deleted file still found".into(), 0);
+                                }
+                            }
+                            Some(Err(e)) => push("far-twin", "delete-refused", format!("a file that is not open cannot be deleted ({})", err_name(&e)), 0),
+                            None => {}
+                        }
+                    }
+                    let _ = fs.close_dir(fd, 0);
+                }
+                Some(Err(e)) => push("far-twin", "open-dir", err_name(&e).to_string(), 0),
+                None => {}
+            }
         }
         let mut dead = fh.is_none();
         for (i, op) in case.ops.iter().enumerate() {
@@ -662,6 +773,23 @@ pub fn huge_eval(prop: &'static str, case: &HugeCase) -> CaseOutcome {
                 }
             }
         }
+        if let Some(f) = other_fh {
+            let _ = guarded!("close_file", fs.close_file(f, 0));
+        }
+        let mut deleted = false;
+        if case.delete_at_end && !dead {
+            probes.hit("huge_file_deleted");
+            // the chain walk rewrites a FAT block per link: not logged
+            disk.st.borrow_mut().keep_log = false;
+            match guarded!("delete_file_in_dir", fs.delete(root, &name, 0)) {
+                Some(Ok(())) => deleted = true,
+                Some(Err(e)) => {
+                    push("huge-delete", "refused", format!("deleting the closed {}-byte file failed: {}", m.size, err_name(&e)), opi);
+                    dead = true;
+                }
+                None => dead = true,
+            }
+        }
         // the neighbour through the API
         if let Some(Ok(sf)) = guarded!("open_file", fs.open_file(root, &Name::Str("SMALL.DAT".into()), Mode::ReadOnly, 0)) {
             let mut buf = vec![0u8; SMALL_LEN + 10];
@@ -685,6 +813,15 @@ pub fn huge_eval(prop: &'static str, case: &HugeCase) -> CaseOutcome {
                         let (slots, _c, _e) = fatspec::dir_slots(img, &g, &fat, fatspec::DirLoc::Cluster(g.root_cluster));
                         let ents = fatspec::live_entries(&slots, true);
                         match ents.iter().find(|e| &e.name == b"BIG     BIN") {
+                            Some(_) if deleted => push("huge-delete", "entry-still-there", "BIG.BIN is still listed on the medium".into(), opi),
+                            None if deleted => {
+                                // everything but the root directory, the small file (and the far directory) is free again
+                                let keep = 2 + case.far_twin as u32;
+                                let used = (g.clusters) - fat.free_count();
+                                if used != keep {
+                                    push("huge-delete", "clusters-not-released", format!("{} clusters are still marked in use after the delete, {} belong to what is left", used, keep), opi);
+                                }
+                            }
                             Some(e) => {
                                 if e.size as u64 != m.size {
                                     push("huge-medium", "size", format!("stored size {} expected {}", e.size, m.size), opi);
@@ -725,12 +862,13 @@ pub fn huge_eval(prop: &'static str, case: &HugeCase) -> CaseOutcome {
                 }
             });
             // every write went to the FAT, the FSInfo sector, the root directory or a cluster of the chain
+            // (a case that ends with the delete has no chain left to compare with: not judged there)
             let st = disk.st.borrow();
             let g = &b.g;
             let fat = FatView::load(&st.image, g, 0);
             let (ch, _) = fatspec::chain(&fat, g, b.chain.first().copied().unwrap_or(0));
             let mine: std::collections::BTreeSet<u32> = ch.iter().copied().collect();
-            for e in st.log.iter().filter(|e| e.write) {
+            for e in st.log.iter().filter(|e| e.write && !deleted) {
                 let blk = e.block;
                 let ok = if blk >= g.first_fat && blk < g.first_fat + g.num_fats * g.fat_size {
                     true
@@ -738,7 +876,7 @@ pub fn huge_eval(prop: &'static str, case: &HugeCase) -> CaseOutcome {
                     true
                 } else {
                     match g.block_cluster(blk) {
-                        Some(c) => c == 2 || mine.contains(&c),
+                        Some(c) => c == 2 || mine.contains(&c) || (case.far_twin && c == 2 + (1u32 << 23) / case.spc as u32),
                         None => false,
                     }
                 };
